@@ -190,6 +190,24 @@ func init() {
 									outcome[k] = bs(got)
 									witness[k] = mode + " " + target + frag
 								}
+								// independent "iff" monitor: the harness's own reading of the rule grammar (first separator decides,
+								// upper-cased method, regex on the decoded PATH only)
+								want := skipPre && method == "OPTIONS"
+								for _, lr := range legacy {
+									if ok, err := regexpMatch(lr, decoded); err == nil && ok {
+										want = true
+									}
+								}
+								for _, ru := range rules {
+									m, neg, re := splitRule(ru)
+									if ok, err := regexpMatch(re, decoded); err == nil && (m == "" || m == method) && ok != neg {
+										want = true
+									}
+								}
+								if got != want {
+									c.violation("C15", fmt.Sprintf("bypass decision %v differs from the configured rules as written (want %v)", got, want), map[string]interface{}{
+										"legacy_regex": legacy, "rules": rules, "skip_preflight": skipPre, "method": method, "path": decoded, "mode": mode, "target": target})
+								}
 								// preflight monitor
 								if method == "OPTIONS" && skipPre && !got {
 									c.violation("C15", "preflight not exempted although enabled", map[string]interface{}{"rules": rules})
